@@ -356,6 +356,7 @@ def drive(a, prop, tier, cdir, plain, outdir, need_race, log, t0):
     known_sigs = {f["signature"] for f in known if f.get("status") == "known" and f["signature"] != os.environ.get("VERIF_UNSUPPRESS")}
     confirmed = []
     seen_sigs = set()
+    unconfirmed_race = {}
     for s in summaries:
         for v in s.get("violations") or []:
             if v["sig"] in known_sigs or v["sig"] in seen_sigs:
@@ -395,9 +396,25 @@ def drive(a, prop, tier, cdir, plain, outdir, need_race, log, t0):
                         v["msg"] = (v.get("msg") or "") + "\n  (the race detector reported it again in replay attempt %d: its access history is bounded and evicted at random, the schedule itself replays exactly)" % again
                         confirmed.append(v)
                         continue
+                    # whether the detector still sees this pair depends on how many other accesses the schedule of
+                    # THIS run puts between the two: the same report from another run of the search is tried next
+                    unconfirmed_race.setdefault(v["sig"], []).append(v)
+                    if len(unconfirmed_race[v["sig"]]) < 4:
+                        seen_sigs.discard(v["sig"])
+                    continue
                 infra("violation %s (seed %s run %s) did not reproduce from its replay file %s in a fresh process: machinery is not deterministic"
                       % (v["sig"], v["seed"], v["run"], v["replay"]))
             confirmed.append(v)
+    for sig, vs in unconfirmed_race.items():
+        if any(c["sig"] == sig for c in confirmed):
+            continue
+        v = vs[0]
+        if confirmed:
+            print("NOTE: race report %s (seed %s run %s and %d more) could not be produced again from its replay file; other violations of this run are confirmed and reported"
+                  % (sig, v["seed"], v["run"], len(vs) - 1))
+            continue
+        infra("violation %s (seed %s run %s) did not reproduce from its replay file %s in a fresh process: machinery is not deterministic"
+              % (v["sig"], v["seed"], v["run"], v["replay"]))
 
     # known findings: replay the committed witnesses
     known_lines = []
@@ -454,19 +471,20 @@ def drive(a, prop, tier, cdir, plain, outdir, need_race, log, t0):
 
 
 EXPECTED_PROBES = {
-    "C01": ["cancel-during-send", "concurrent-reregistration", "history.failed-reregistration", "history.wide-event-type", "send.event-as-payload", "concurrent-removal"],
-    "C02": ["cancel-during-send", "history.wide-event-type"],
-    "C03": ["cancel-during-send", "node.stalled", "node.nested-send", "node.nested-send-same-type", "send.foreign-context-type", "send.channel-sink-without-consumer"],
-    "C08": ["fs.external-rename", "fs.crashed", "fs.rotated", "fs.huge-event", "fs.unremovable-oldest", "fs.resent-after-error"],
-    "C06": ["enum.exhausted"],
-    "C11": ["gate.expired-group", "gate.flushall-many-groups", "enum.exhausted", "gate.broker-field-changed", "gate.backlog-flush-run"],
-    "C12": ["reentry.process", "reentry.close", "reentry.reopen", "reentry.send-cancelled", "reentry.file-pipeline", "reentry.wide-type"],
+    "C01": ["cancel-during-send", "concurrent-reregistration", "history.failed-reregistration", "history.wide-event-type", "send.event-as-payload", "concurrent-removal", "node.decorator-without-closer-invoked"],
+    "C02": ["cancel-during-send", "history.wide-event-type", "fresh-type-read-between-setters"],
+    "C03": ["cancel-during-send", "node.stalled", "node.nested-send", "node.nested-send-same-type", "send.foreign-context-type", "send.channel-sink-without-consumer", "send.never-done-context-with-deadline"],
+    "C08": ["fs.external-rename", "fs.crashed", "fs.rotated", "fs.huge-event", "fs.unremovable-oldest", "fs.resent-after-error", "fs.external-rename-fresh-file-in-place"],
+    "C06": ["enum.exhausted", "registry.register-pipeline-panicked-in-user-code"],
+    "C04": ["history.shared-option-slice"],
+    "C11": ["gate.expired-group", "gate.flushall-many-groups", "enum.exhausted", "gate.broker-field-changed", "gate.backlog-flush-run", "gate.payload-object-reused-under-another-id"],
+    "C12": ["reentry.process", "reentry.close", "reentry.reopen", "reentry.send-cancelled", "reentry.file-pipeline", "reentry.wide-type", "reentry.gated-beside-raw"],
     "C13": ["channel.room-fast-path", "channel.error", "fs.retry-after-failed-write", "writer.panicked"],
     "C14": ["json.unencodable", "json.context-done", "json.marshaler-touched-format-table"],
     "C15": ["fs.model-rotation", "fs.external-rename", "fs.directory-removed-silently", "fs.future-stamped-leftovers"],
-    "C16": ["encrypt.rotated", "encrypt.recurring-event-id", "encrypt.rekeyed-in-place"],
+    "C16": ["encrypt.rotated", "encrypt.recurring-event-id", "encrypt.rekeyed-in-place", "encrypt.rotation-from-no-salt-no-info"],
     "C17": ["gate.expired-group", "gate.flushall-many-groups", "enum.exhausted", "gate.broker-field-changed", "gate.backlog-run", "gate.reopened", "gate.clock-stepped-back", "gate.clock-replaced"],
-    "C18": ["ce.signer-failed", "ce.signed", "ce.signer-panicked", "ce.reconfigured", "ce.second-rendering-failed"],
+    "C18": ["ce.signer-failed", "ce.signed", "ce.signer-panicked", "ce.reconfigured", "ce.second-rendering-failed", "ce.signer-gave-up-on-cancelled-context"],
 }
 
 
